@@ -5,7 +5,7 @@
    Conjuncts of the property that are NOT theorems here (they rest on the exact
    correspondence run and the dense oracle only) are listed at the end. *)
 From Coq Require Import List Arith Bool Ring.
-From Verif.C16 Require Import Model Model2 Proofs Proofs2 Proofs3.
+From Verif.C16 Require Import Model Model2 Proofs Proofs2 Proofs3 Proofs4.
 Import ListNotations.
 
 Section Props.
@@ -304,6 +304,23 @@ Theorem fastdiag_inverts_code_multi : forall (fs : list (eigfac R)) (Us : list (
                       (aat R (fastdiag_apply_mat R rO radd rmul Us dinv x) [j; k])) = aat R x [i; k].
 Proof. exact (fastdiag_inverts_code_mat_l R rO rI radd rmul rsub ropp Rth). Qed.
 
+(* kronecker.apply_kronecker (kronecker.py:6-12), its own dispatch as one statement: all operands
+   ndarrays -> _apply_kronecker_dense, otherwise every operand is wrapped by aslinearoperator and the
+   column-major sweeps run; for square factors (the documented domain) of any kind the result is the
+   Kronecker matrix times x on either branch -- vectors ... *)
+Theorem apply_kronecker_spec : forall (ops : list (operand R)) (x : arr R) i,
+  squares R ops -> ashape R x = [prodl (orows ops)] -> i < prodl (orows ops) ->
+  aat R (apply_kronecker R rO radd rmul ops x) [i] =
+  sumn (prodl (orows ops)) (fun j => rmul (kron_ent (omats ops) i j) (aat R x [j])).
+Proof. exact (apply_kronecker_vec_l R rO rI radd rmul rsub ropp Rth). Qed.
+
+(* ... and (N,m) arguments *)
+Theorem apply_kronecker_spec_multi : forall (ops : list (operand R)) (x : arr R) m i c,
+  squares R ops -> ashape R x = [prodl (orows ops); m] -> i < prodl (orows ops) -> c < m ->
+  aat R (apply_kronecker R rO radd rmul ops x) [i; c] =
+  sumn (prodl (orows ops)) (fun j => rmul (kron_ent (omats ops) i j) (aat R x [j; c])).
+Proof. exact (apply_kronecker_mat_l R rO rI radd rmul rsub ropp Rth). Qed.
+
 End Props.
 
 Print Assumptions apply_tprod_spec.
@@ -346,14 +363,17 @@ Print Assumptions fastdiag_inverts_multi.
 Print Assumptions fastdiag_inverts_code.
 Print Assumptions fastdiag_inverts_code_multi.
 
-(* NOT PROVED:
-   - (M U) U^T = I is assumed in that form (eig_ok); eigh returns U^T M U = I, which is equivalent for square
-     matrices over a field (left inverse = right inverse); this is not derived here (R is a commutative
-     ring; the derivation needs determinants or rank arguments);
+Print Assumptions apply_kronecker_spec.
+Print Assumptions apply_kronecker_spec_multi.
+
+(* Further theorems live in PropsField.v (over mathcomp's comRingType, via FieldBridge.v):
+   left_inverse_is_right_inverse, eigh_contract_suffices, fastdiag_inverts_eigh[_multi] -- fastdiag_inverts
+   from the contract eigh actually provides (K U = M U diag(lam), U^T M U = I).
+
+   NOT PROVED:
    - fastdiag_apply / fastdiag_apply_mat are not exercised by the correspondence case files (the
      implementation's U, lambda come from LAPACK and are not exactly representable in general); they are
      covered by Examples.v and, numerically, by the exact residual check of the fastdiag solver cases;
-   - kronecker.apply_kronecker's own dispatch (all ndarray -> dense, else aslinearoperator + linops)
-     has no separate theorem: it is kron_dense_spec / kron_linops_spec on the respective branch;
-   - adjoints (.H): real operands only, identified with the transpose in the model;
+   - adjoints (.H): real operands only, identified with the transpose in the model (complex operands would
+     need a conjugation on the carrier; not modelled);
    - the contracts of make_solver / eigh themselves (LAPACK, SuperLU): numerical residual check only. *)
